@@ -26,6 +26,7 @@ import (
 	"verif/harness/reg"
 	"verif/vs"
 
+	_ "verif/harness/c01"
 	_ "verif/harness/c02"
 	_ "verif/harness/c03"
 	_ "verif/harness/c04"
